@@ -1,4 +1,4 @@
 From Coq Require Import Extraction ExtrOcamlBasic.
 From GV Require Import Run.
 Extraction Language OCaml.
-Extraction "../ocaml/model.ml" Run.run.
+Extraction "../ocaml/lang/model.ml" Run.run.
